@@ -2,6 +2,9 @@
    Model/TZif.lean: the pieces of the decoding phase (header, tables, `_ttinfo` construction, index replacement). -/
 import DateutilVerif.Generated.TzifKernels
 
+set_option linter.unusedSimpArgs false
+set_option linter.unusedVariables false
+
 namespace TzifGen
 open Py TZ TzifPy
 
